@@ -184,14 +184,16 @@ def run_check(prop: str, tier: str, batch_seed: int, workers: int | None = None)
     # single worker; full trace digests must agree.
     n_det = min(getattr(mod, "DETERMINISM", {}).get(tier, 48 if tier == "quick" else 400), len(results))
     det_ok = True
+    det_mismatch: list[int] = []
     if n_det and not os.environ.get("VERIF_SKIP_DETERMINISM"):
         fresh = _fresh_interpreter_digests(prop, batch_seed, n_det, tier)
         mism = [i for i in range(n_det) if fresh.get(str(i)) != results[i].get("digest")]
         if mism:
+            # not fatal yet: a defect that leaks process-global state between runs also shows up here. A
+            # violation that is minimised and reproduced in a fresh interpreter stands on its own; without
+            # one the batch is reported as a harness error below.
             det_ok = False
-            print(f"HARNESS-ERROR property={prop} nondeterministic runs: indices {mism[:10]}")
-            _write_evidence(prop, mod, tier, batch_seed, results, t0, [], [], harness=len(mism))
-            return EXIT_HARNESS
+            det_mismatch = mism
 
     # triage violations
     known = findings_mod.load()
@@ -221,7 +223,26 @@ def run_check(prop: str, tier: str, batch_seed: int, workers: int | None = None)
         if len(violations_reported) >= max_report:
             break
         items.sort(key=lambda it: (len(json.dumps(it["run"]["scenario"])), it["run"]["index"]))
-        first = items[0]
+        # a violation must reproduce from its scenario alone in this (the controlling) process: runs whose
+        # failure depended on what an earlier run left behind in the worker process are skipped here and the
+        # next candidate is taken (if none reproduces it is a harness error, never a verdict)
+        first = None
+        t_try = time.time()
+        for cand in items[:2000]:
+            if time.time() - t_try > 45:
+                break
+            try:
+                o = mod.execute(cand["run"]["scenario"])
+            except Exception:  # noqa: BLE001
+                continue
+            if any(v["clause"] == clause for v in o.get("violations", [])):
+                first = cand
+                break
+        if first is None:
+            print(f"HARNESS-ERROR property={prop} clause={clause}: none of the tried candidate scenarios reproduces in isolation "
+                  f"(process-global state leaking between runs?)")
+            _write_evidence(prop, mod, tier, batch_seed, results, t0, [], list(known_seen), harness=1)
+            return EXIT_HARNESS
         scn = first["run"]["scenario"]
 
         def still_fails(cand: dict, clause=clause) -> bool:
@@ -252,6 +273,10 @@ def run_check(prop: str, tier: str, batch_seed: int, workers: int | None = None)
         print(f"VIOLATION property={prop} replay={path}")
         violations_reported.append({"clause": clause, "replay": str(path), "detail": v["detail"]})
 
+    if det_mismatch and not violations_reported:
+        print(f"HARNESS-ERROR property={prop} nondeterministic runs: indices {det_mismatch[:10]}")
+        _write_evidence(prop, mod, tier, batch_seed, results, t0, [], list(known_seen), harness=len(det_mismatch))
+        return EXIT_HARNESS
     _write_evidence(prop, mod, tier, batch_seed, results, t0, violations_reported, list(known_seen),
                     det=n_det if det_ok else 0)
     wall = time.time() - t0
